@@ -549,6 +549,7 @@ func checkDiagOperands(c *Ctx, r *Report) {
 		pos, fn, file, rng string
 	}
 	var all []site
+	weighted := 0
 	viol := ""
 	for _, cl := range w.callersOf(func(n string) bool {
 		return strings.HasPrefix(n, pkgDiag+".New") && strings.HasSuffix(n, "Diagnostic") && n != pkgDiag+".NewEntityDiagnostic"
@@ -597,12 +598,13 @@ func checkDiagOperands(c *Ctx, r *Report) {
 			fr, rg = normAttr(fr), normAttr(rg)
 		}
 		all = append(all, site{w.pos(cl.Pos()), fnk, fr, rg})
+		weighted += w.siteWeight(cl)
 		if fr == rg {
 			continue
 		}
-		owner := fnk
-		if i := strings.Index(fnk, ")."); i > 0 {
-			owner = strings.TrimPrefix(strings.TrimPrefix(fnk[:i], "("), "*")
+		owner := hostParts(fnk)[0]
+		if i := strings.Index(owner, ")."); i > 0 {
+			owner = strings.TrimPrefix(strings.TrimPrefix(owner[:i], "("), "*")
 		}
 		tied := false
 		for _, t := range ties[owner] {
@@ -619,8 +621,8 @@ func checkDiagOperands(c *Ctx, r *Report) {
 	for _, s := range all {
 		sites = append(sites, s.pos)
 	}
-	if len(all) < 20 {
-		viol = fmt.Sprintf("only %d diagnostic constructor call sites found (floor 20)", len(all))
+	if weighted < 20 {
+		viol = fmt.Sprintf("only %d diagnostic constructor call sites found (floor 20)", weighted)
 	}
 	o := r.add("C18.d", "fieldflow", "diagnostic:file~range-same-entity", fmt.Sprintf("at each of the %d diagnostic constructor call sites the file and range operands derive from the same entity", len(all)), []string{pkgDiag + ".New*Diagnostic"}, sites, viol)
 	o.NonTrivial = true
